@@ -870,6 +870,8 @@ class Parser(ExprParser):
         """
         self.mustbe("LT")
         lst = []
+        if self.token.typ == "GT":
+            self.error_msg("Expected a template argument, found GT")
         while self.token.typ != "GT":
             temp = Declaration()
             self.declaration_specifier(temp)
